@@ -175,6 +175,18 @@ def run(ctx):
                 r.violate(key, f"{name}: an Err result ({f.rec['locals'][src][:70]}) can reach the return without save_last_error: the C caller gets an error code with no message, or no error at all", f.loc())
     if n < 15:
         raise EngineError("R17.4: fewer than 15 examined Results in extern functions")
+    # the recorded error is always the one of the call that just failed: save_last_error overwrites unconditionally
+    inner = [g for g in capi.fns if g.key == "errors::save_last_error::{closure#0}::{closure#0}"]
+    r.inst("save_last_error|overwrites")
+    okw = False
+    if inner:
+        g = inner[0]
+        calls_ = [callee_key(t) for bi, t in g.calls()]
+        ws_ = [st for b in g.blocks for st in b["stmts"] if st["k"] == "assign" and st["p"]["proj"] and "deref_mut" in g.describe_place(st["p"]) and st["rv"]["k"] == "use" and g.deep(st["rv"]["o"]).endswith("err")]
+        sw_ = [b for b in g.blocks if b["term"]["k"] == "switch" and not b.get("cleanup")]
+        okw = bool(ws_) and not any(re.search(r"get_or_insert|or_insert|is_none|is_some|replace$|take$", c) for c in calls_) and not sw_
+    if not okw:
+        r.violate("save_last_error|overwrites", "save_last_error no longer stores the new error unconditionally (`*v = err`): with an earlier, uncollected error pending, lol_html_take_last_error() would return the stale message instead of the error of the call that just failed", inner[0].loc() if inner else None)
     # a Result that is never examined at all (`let _ = element.set_tag_name(..)`) loses the error too
     ACCEPTED_DROPS = {("errors::save_last_error", "LocalKey::try_with"): "recording the error must not itself fail or panic during thread teardown (R18.5)"}
     for f in capi.fns:
@@ -273,6 +285,23 @@ def run(ctx):
     fp = [bi for bi, t in ch.calls() if t["how"] == "indirect"]
     if len(fp) != 1:
         r.violate("CStreamingHandler::drop|callback", "CStreamingHandler's Drop does not call drop_callback exactly once", ch.loc())
+
+    # ------------------------------------------------------------------ R17.7
+    r = ctx.rule("R17.7", "drop_callback is called exactly once for every streaming handler the library could read: in each lol_html_*_streaming_* function only `reserved` is examined before the struct is moved into a Box (whose Drop runs drop_callback); write_all_callback is examined after that move, so the rejected handler is still dropped", "E-MIR dominance", floor=14)
+    for f in capi.fns:
+        if capi.is_test_fn(f) or not re.search(r"lol_html_\w+_streaming_\w+$", f.key):
+            continue
+        reads_here = sm.fields_read(f)
+        cls = [g for g in capi.fns if g.key.startswith(f.key + "::{closure")]
+        early = sorted(set(x for g in cls for x in sm.fields_read(g) if x.startswith("CStreamingHandler.")))
+        rd = [bi for bi, t in f.calls(r"\*mut T::read$|ptr::read$")]
+        bx = [bi for bi, t in f.calls(r"Box::new$")]
+        tests = [bi for bi, t in f.calls(r"Option::is_none$|Option::is_some$") if "write_all_callback" in f.deep(t["args"][0])]
+        key = f.key.split("::")[-1] + "|ownership-before-validation"
+        r.inst(key, sample={"examined_before_the_move": early, "write_all_callback_tests": len(tests)})
+        ok = early == ["CStreamingHandler.reserved"] and len(rd) == 1 and len(bx) == 1 and bool(tests) and all(f.dominates(bx[0], t_) for t_ in tests)
+        if not ok:
+            r.violate(key, f"{f.key.split('::')[-1]}: fields examined before the handler is moved into its Box: {early}; write_all_callback tests dominated by the move: {bool(tests) and bool(bx) and all(f.dominates(bx[0], t_) for t_ in tests)} — a handler rejected for a missing write_all_callback would never get its drop_callback (lol_html.h: called exactly once), leaking what user_data owns", f.loc())
 
     # ------------------------------------------------------------------ R17.6
     r = ctx.rule("R17.6", "handler closures outlive the builder: the closures the C API hands to the Rust rewriter (as_safe_*_content_handlers, lol_html_element_add_end_tag_handler) capture the C callback and the user_data pointer by value only — never a reference or pointer into the builder's handler storage, which lol_html.h allows to be freed before the rewriter runs", "E-MIR closure captures", floor=7)
